@@ -15,8 +15,9 @@ from .c10 import generated_variants
 from .siblings import Path as SimPath
 from .siblings import PathSim, _class_names, _strip, enum_builder_parity, enum_merge_parity, inline_tail_calls
 
-LEVEL = ("structural clauses: semantic facts of each enum builder and of merge_properties per enum class (private helpers written out in "
-         "place wherever they are called, loops over constant tables unrolled, record fields and lambdas held in them followed; the merge "
+LEVEL = ("structural clauses: semantic facts of each enum builder and of merge_properties per enum class (private helpers - and package functions that only the builders call - written out in "
+         "place wherever they are called, loops over constant tables unrolled, record fields and lambdas held in them followed, a result "
+         "that travels as a NamedTuple followed through isinstance and unpacking; the merge "
          "is simulated for every property class of the package on the other side), checked by simulating "
          "the control flow under scenarios (null extraction by identity, only-null -> NoneProperty, single supported value type, null "
          "member -> nullable union, members from the null-free list, a taken class name reused only by the same class with the same "
@@ -28,7 +29,8 @@ LEVEL = ("structural clauses: semantic facts of each enum builder and of merge_p
          "assignment of the template conditions, macro calls followed and `set` variables read as their definitions - raises whenever a "
          "present value differs from the constant), encode is .value / identity in every encoder macro (same reading), str(<member>) only together with a __str__ of the generated class that returns the "
          "value; member values reach the class through a string context with a single escaping (label analysis of the "
-         "emission site), Literal members through repr only; nobody adds to the declared values (every write to the enum field of a "
+         "emission site; each class template must show such an emission), Literal members through repr only; a closed member of a union "
+         "keeps its rejection (the generated union decoder does not discard the member's exception and then return the undecoded value); nobody adds to the declared values (every write to the enum field of a "
          "schema stores None or a selection of the old list).")
 
 
@@ -94,12 +96,15 @@ def run(rep: Report, ctx: Any) -> str:
                       "through %r of the raw value")
     it, ji = ctx.flow
     n_v = 0
+    per_class: dict[str, int] = {"str_enum.py.jinja": 0, "int_enum.py.jinja": 0}
     for e in ji.emissions.values():
         # the member value: second component of the loop over enum.values (canonical loop variable `ITER[*].1`)
         # (in the literal template every expression that reads the member set emits values, whatever it converts them with)
         if e.template in ("str_enum.py.jinja", "int_enum.py.jinja") and re.search(r"enum\.values[^ ]*?\[\*\]\.1\b", e.expr) or \
                 (e.template == "literal_enum.py.jinja" and "enum.values" in e.expr):
             n_v += 1
+            if e.template in per_class:
+                per_class[e.template] += 1
             dbl = {l for l in e.labels if l.startswith("REPR_OF_ESC")}
             rep.check(not dbl, "R14.4", f"{e.template}::{e.expr}#{e.ordinal}@{e.kind}",
                       "an enum value is escaped twice on its way into the generated class: the member's wire value differs from the "
@@ -109,6 +114,10 @@ def run(rep: Report, ctx: Any) -> str:
                           "string enum value is not emitted as escaped text inside a \"...\" literal",
                           where=f"{PKG}/templates/{e.template}:{e.line}", lhs=[e.kind, sorted(e.labels)], rhs='ESC in STR1"')
     rep.floor("enum_value_emissions", n_v, 2)
+    for tname, k in per_class.items():
+        # every class template writes its members somewhere: when no emission of a member value is found for it the walk over the
+        # template did not get there (a construct the interpreter does not follow), which is not the same as "nothing is wrong"
+        rep.require(k > 0, f"an emission of the member values in {tname}")
     # Literal[...] arguments and the members of the VALUES set are Python source: the only conversion that writes every str / int as
     # a Python literal denoting the same value is repr (`"%r"|format(x)`); str() leaves strings unquoted and tojson writes JSON text
     # (other escapes: characters outside the BMP become surrogate pairs, which a Python literal does not recombine)
@@ -126,6 +135,7 @@ def run(rep: Report, ctx: Any) -> str:
                       f"literal of the value: {conv or 'none (str())'}", where=f"{PKG}/templates/{le.name}:{c.lineno}", lhs=conv, rhs=["format:%r"])
     rep.floor("literal_value_outputs", n_lit, 1)
     _declared_values_not_extended(rep, ctx)
+    _closed_members_of_unions(rep, jx)
     rep.not_decided.append("behaviour of Enum(value) itself (CPython)")
     return LEVEL
 
@@ -345,14 +355,15 @@ def _enum_encoders(rep: Report, jx: Any, et: Any) -> None:
     for tname in ("str_enum.py.jinja", "int_enum.py.jinja"):
         ti = jx.templates.get(tname)
         rep.require(ti, tname)
-        ok, shown = _str_is_value(ti)
+        ok, shown = _str_is_value(ti, jx)
         rep.check(ok or not relies_on_str, "R14.3", f"{tname}::__str__", f"the encoders {sorted(set(relies_on_str))} send str(<member>), but the "
                   "generated enum class does not define __str__ to return the member's value: 'ClassName.MEMBER' is sent instead of the "
                   "listed value", where=f"{PKG}/templates/{tname}", lhs=shown, rhs="def __str__(self): return str(self.value)")
 
 
-def _str_is_value(ti: Any) -> "tuple[bool, str | None]":
-    """the generated class defines __str__ and every path of it returns the member's value (as text)"""
+def _str_is_value(ti: Any, jx: Any) -> "tuple[bool, str | None]":
+    """the generated class defines __str__ and every path of it returns the member's value (as text); the class is the module the
+    template renders (the index holds a template that extends another one as the inherited layout with its blocks filled in)"""
     text = _as_python(list(tplq.frags(ti.tree.body)), None)
     try:
         tree = ast.parse(text)
@@ -377,6 +388,104 @@ def _str_is_value(ti: Any) -> "tuple[bool, str | None]":
     ok = bool(paths) and all(isinstance(p_.end, ast.Return) and is_value(PathSim(fns[0]).resolve(p_.end.value, p_.end_state) if p_.end.value is not None else None)
                              for p_ in paths)
     return ok, ast.unparse(fns[0])[:100]
+
+
+# =====================================================================================================================
+# R14.6: a closed member of a union stays closed
+# =====================================================================================================================
+CLOSED_TEMPLATES = ("const_property.py.jinja", "enum_property.py.jinja", "literal_enum_property.py.jinja")
+
+
+def _closed_members_of_unions(rep: Report, jx: Any) -> None:
+    """An enum or a const that is a member of a union (a nullable enum is one) is decoded by the union's decoder, which writes the
+    member's own decoder into its body.  The member's decoder rejects an unlisted value by raising (R14.3); that is worth nothing
+    when the union wraps it in a handler that discards the exception and then hands the value back as it came (the pass-through
+    return for the members that need no decoding - null, string, number ...).  Read on the code the union's construct macro
+    generates (c10.generated_variants: once per valuation of the template conditions, macro calls and call blocks followed, `set`
+    variables read as their definitions - however the template is cut into pieces), per member template with the template's own
+    fact "has a check_type_for_construct macro": in the generated decoder function the member's construct must not sit in a `try`
+    whose handlers do not all re-raise when a return of the undecoded argument follows that `try`."""
+    from jinja2 import nodes as jn
+
+    rep.rule("R14.6", "for the templates that decode a closed set of values (const, enum, literal enum): with the template's own fact "
+                      "(has check_type_for_construct or not) the union decoder never writes the member's construct inside a try whose "
+                      "handlers discard the exception when the pass-through return of the undecoded value follows - an unlisted value "
+                      "would be handed back as it came instead of being rejected")
+    ut = jx.templates.get("property_templates/union_property.py.jinja")
+    cm = ut.macros.get("construct") if ut is not None else None
+    rep.require(cm, "union construct macro")
+
+    def role(e: Any, text: str, at: int, tev: Any) -> "str | None":
+        n = e
+        while isinstance(n, jn.Filter) and n.node is not None:
+            n = n.node
+        if isinstance(n, jn.Call) and isinstance(n.node, (jn.Getattr, jn.Getitem)) and \
+                (n.node.attr if isinstance(n.node, jn.Getattr) else getattr(n.node.arg, "value", None)) == "construct":
+            return "MEMBER_CONSTRUCT"
+        return None
+
+    vs = generated_variants(cm, ut, jx, role, limit=10)
+    rep.require(vs, "a union construct macro that depends on at most 10 conditions")
+    rep.require(any("MEMBER_CONSTRUCT" in text for _, text in vs), "call of the member template's construct macro in the union decoder")
+    fact = re.compile(r"(\.check_type_for_construct|\[['\"]check_type_for_construct['\"]\])$")
+    check_atoms = sorted({a for env, _ in vs for a in env if fact.search(a)})
+
+    def swallowed_then_passed(text: str) -> bool:
+        import textwrap
+
+        try:
+            tree = ast.parse(textwrap.dedent("\n".join(ln for ln in text.splitlines() if ln.strip())))
+        except SyntaxError:
+            raise _Unparsed(" ".join(text.split())[:100])
+        for fn in [n for n in ast.walk(tree) if isinstance(n, ast.FunctionDef) and n.args.args]:
+            arg = fn.args.args[0].arg
+            passes = []
+            for r in ast.walk(fn):
+                if isinstance(r, ast.Return) and r.value is not None:
+                    v = r.value
+                    while isinstance(v, ast.Call) and call_name(v).rsplit(".", 1)[-1] == "cast" and len(v.args) == 2:
+                        v = v.args[1]
+                    if isinstance(v, ast.Name) and v.id == arg:
+                        passes.append(r)
+            for tr in [n for n in ast.walk(fn) if isinstance(n, ast.Try)]:
+                if not any(isinstance(n, ast.Name) and n.id == "MEMBER_CONSTRUCT" for st in tr.body for n in ast.walk(st)):
+                    continue
+                discards = False
+                for h in tr.handlers:
+                    ends = PathSim(ast.FunctionDef(name="h", body=h.body, args=fn.args, decorator_list=[], lineno=1, col_offset=0)).paths()  # type: ignore[call-overload]
+                    discards = discards or any(not isinstance(p_.end, ast.Raise) for p_ in ends)
+                if discards and any(r.lineno > (tr.end_lineno or tr.lineno) for r in passes):
+                    return True
+        return False
+
+    n_tpl = 0
+    for short_name in CLOSED_TEMPLATES:
+        t = jx.templates.get(f"property_templates/{short_name}")
+        if t is None or "construct" not in t.macros:
+            continue
+        n_tpl += 1
+        checked = "check_type_for_construct" in t.macros
+        bad_env = None
+        try:
+            for env, text in vs:
+                if any(env[a] != checked for a in check_atoms) or "MEMBER_CONSTRUCT" not in text:
+                    continue
+                if swallowed_then_passed(text):
+                    bad_env = {k: v for k, v in env.items() if k not in check_atoms and v}
+                    break
+        except _Unparsed as ex:
+            rep.require(False, f"a generated union decoder that reads as Python ({ex})")
+        rep.check(bad_env is None, "R14.6", f"union_property.py.jinja::construct::member[{short_name}]::rejection-kept",
+                  f"a union member rendered by {short_name} ({'with' if checked else 'without'} check_type_for_construct) gets its construct "
+                  "inside a try whose handler discards the exception, and the union's pass-through return of the undecoded value follows: a "
+                  "value the member rejects is returned as it came - a nullable enum / const accepts every value",
+                  where=f"{PKG}/templates/{ut.name}", lhs={"check_type_for_construct": checked, "when": sorted(bad_env or {})},
+                  rhs="the member's rejection leaves the decoder, or nothing is passed through unchecked")
+    rep.floor("closed_member_templates", n_tpl, 3)
+
+
+class _Unparsed(Exception):
+    pass
 
 
 # =====================================================================================================================
